@@ -18,6 +18,11 @@ TABLE_DEPS = ["c20_num_normalize", "c20_num_add", "c20_num_subtract", "c20_num_m
               "c20_core_incq", "c20_core_decq", "c20_core_abs", "c20_core_zerop", "c20_core_inline_flags",
               "c20_opt_ops"]
 SHARD = 1500
+# Coq wraps the printed (index, code) list at 78 columns and may break a line right after
+# an opening parenthesis, which the result parser of vlib/coqrun.classify does not expect
+# (such entries were silently dropped: a failing case read as passing).  A huge printing
+# width keeps every entry on one line.
+EXTRA_REQUIRE = "Set Printing Width 1000000."
 RULE = ("operand pairs from a 48-element universe (small and huge ints up to 10^400, ratios with small and "
         "huge parts, decimals incl. signed zeros, floats incl. +-0.0, +-inf, nan, 2^53, 1e300) x "
         "{+ - * / quot rem mod, < <= > >= =} and single operands x {inc dec inc' dec' - abs / zero?}, "
@@ -135,12 +140,33 @@ COQ_OP = {"add": "(OpA OAdd)", "sub": "(OpA OSub)", "mul": "(OpA OMul)", "div": 
           "lt": "(OpC CLt)", "le": "(OpC CLe)", "gt": "(OpC CGt)", "ge": "(OpC CGe)", "eq": "(OpC CEq)"}
 
 
+def zlit(n):
+    """Z literal; big numbers in hexadecimal (Coq converts a 400-digit decimal literal in
+    seconds, the same number in hex in microseconds)."""
+    n = int(n)
+    if abs(n) < 10 ** 15:
+        return G.z(n)
+    return f"(0x{n:x})%Z" if n > 0 else f"(- (0x{-n:x}))%Z"
+
+
+def plit(n):
+    n = int(n)
+    assert n > 0
+    return f"{n}%positive" if n < 10 ** 15 else f"(0x{n:x})%positive"
+
+
+def nlit(n):
+    n = int(n)
+    assert n >= 0
+    return f"{n}%N" if n < 10 ** 15 else f"(0x{n:x})%N"
+
+
 def coq_operand(a):
     t = a["t"]
     if t == "int":
-        return f"(AInt {G.z(a['v'])})"
+        return f"(AInt {zlit(a['v'])})"
     if t == "ratio":
-        return f"(ARatio {G.z(a['n'])} {int(a['d'])}%positive)"
+        return f"(ARatio {zlit(a['n'])} {plit(a['d'])})"
     if t == "dec":
         return "ADec"
     return "AFlt"
@@ -162,13 +188,13 @@ def coq_obs(o):
         return f"(OExc {EXC.get(o['exc'], 'EOther')})"
     t = o.get("t")
     if t == "int":
-        return f"(OInt {G.z(o['v'])})"
+        return f"(OInt {zlit(o['v'])})"
     if t == "ratio" and o["d"] > 0:
-        return f"(ORatio {G.z(o['n'])} {int(o['d'])}%positive)"
+        return f"(ORatio {zlit(o['n'])} {plit(o['d'])})"
     if t == "dec":
         return f"(ODec {G.s(o['s'])})"
     if t == "float":
-        return f"(OFlt {G.n(o['bits'])})"
+        return f"(OFlt {nlit(o['bits'])})"
     if t == "bool":
         return f"(OBool {G.b(o['v'])})"
     return "(OExc EOther)"
